@@ -23,6 +23,7 @@ func checkC01(c *Ctx) {
 	c.Rule("C01/R6", "in the known-key walk a step that shrinks the key order revisits the same slot, so no key is skipped")
 
 	c.Rule("C01/R7", "the writer's running model owns its bytes: no method of Writer stores into the Writer a slice, map or pointer that is rooted in its argument (values are copied), so a caller reusing its Result cannot change what the writer believes it has printed")
+	c.Rule("C01/R10", "what the writer prints back is what was written: the reader records the value and unit as written (OrigValue/OrigUnit) exactly when Tidy changed the unit — decided by comparing the unit strings, never the values (0, ±Inf and NaN compare equal/unequal regardless of the unit); same rule as C04/R1")
 	c.Rule("C01/R9", "the parser that reads the writer's %v floats back is the correctly rounding one: the conversion functions carried over from strconv agree with strconv region by region (same rule as C03/R5; shortest-decimal output round-trips only through a correctly rounding parser)")
 	c.Rule("C01/R8", "SetConfig marks the key internal: every write of a configuration value in SetConfig is to an entry whose File flag is set false on the same path (the entry comes from ensureConfig(key, false) or File is stored false)")
 
@@ -32,6 +33,7 @@ func checkC01(c *Ctx) {
 	c01Owns(c, p)
 	c01SetConfig(c, p)
 	c03Port(c, "C01/R9")
+	c04R1(c, p, "C01/R10")
 }
 
 func c01Owns(c *Ctx, p *Prog) {
@@ -521,16 +523,25 @@ func (ev *c01env) newKeyLoop(fn *ssa.Function, lp *loopInfo) {
 		return
 	}
 	n := 0
+	earlyExit := false
 	for _, o := range outs {
 		part := map[string]*bool{}
 		for k, v := range o.Assign {
 			kind := ev.atomKind(o.AtomSyms[k])
 			if kind == "" {
-				c.Undecided(R, key+":atoms", site, "the step consults a condition outside the table's predicates: "+k)
-				return
+				// a condition that is not about this key: harmless if the walk goes on to the next entry either way
+				// (the actions are judged below), a defect if it ends the walk
+				if !(o.Term == "exit" && o.Exit == lp.Header) {
+					c.Bad(R, key+":early-exit", site, "the pass over the result's configuration can stop on a condition that is not about the current key ("+truncate(k, 120)+"): when a result both drops and adds keys, keys after the stop are never written (or written one result late) and never reach the reader of the output")
+					earlyExit = true
+				}
+				continue
 			}
 			vv := v
 			part[kind] = &vv
+		}
+		if earlyExit {
+			continue
 		}
 		del, set := 0, 0
 		var modelUpd *Sym
